@@ -130,7 +130,7 @@ def jhash(x):
 # the check itself
 # ---------------------------------------------------------------------------------------------------
 
-TIER_CASES = {"quick": 900, "thorough": 20000}
+TIER_CASES = {"quick": 1400, "thorough": 20000}
 
 TRUSTED_BASE = [
     "Coq 8.16.1 kernel via coqc (full .vo build; vm_compute used, no native_compute)",
